@@ -210,6 +210,29 @@ def run_harness(ast_path, mod, cls, kw, seed=0, workers=None, time_cap=120, path
     agg['called'] = sorted(agg['called']); agg['wall_s'] = round(time.time() - t0, 2)
     return agg
 
+def sample_assignments(h, n, seed=0):
+    """n concrete inputs of a harness's input space: models of its preconditions, diversified by random assumptions on its boolean / small-domain constants"""
+    rng = random.Random(seed)
+    s = z3.Solver(); s.set('timeout', 5000); s.set('random_seed', seed % 1000)
+    for p in h.preconditions(): s.add(p)
+    consts = h.consts(); doms = h.domains()
+    out = []; seen = set(); tries = 0
+    while len(out) < n and tries < n * 4:
+        tries += 1
+        assum = []
+        for c in rng.sample(consts, min(len(consts), max(1, len(consts) // 2))):
+            if z3.is_bool(c): assum.append(c if rng.random() < 0.5 else z3.Not(c))
+            elif str(c) in doms: assum.append(c == z3.StringVal(rng.choice(doms[str(c)])))
+        r = s.check(*assum)
+        if r != z3.sat:
+            r = s.check(*assum[:len(assum) // 2])
+            if r != z3.sat: continue
+        a = assignment_from_model(s.model(), consts)
+        key = json.dumps(a, sort_keys=True)
+        if key in seen: continue
+        seen.add(key); out.append(a)
+    return out
+
 def local_harness(ast, mod, cls, kw, seed=0):
     """in-process harness + machine (used by the master for replays and by tests)"""
     h = getattr(importlib.import_module(mod), cls)(**kw)
